@@ -9,12 +9,19 @@ STUBS = LOOP_STUBS
 ASSUMPTIONS = ["parties as described in mem_scn (own clone each, closed in finally); items are distinct ints sender*10+index; "
                "main keeps one receive clone open and drains the buffer at the end so that conservation is decidable"]
 OUTSIDE = ["more than 4 parties / 2 items per sender", "uvloop, trio"]
-MUST_REACH = ["delivered", "cancelled-party", "wouldblock", "cancel-while-blocked-receive", "cancel-while-blocked-send", "sender-was-blocked"]
+MUST_REACH = ["A:receiver-with-pending-cancellation-skipped", "delivered", "cancelled-party", "wouldblock", "cancel-while-blocked-receive", "cancel-while-blocked-send", "sender-was-blocked"]
 
 
 def units(tier):
     quick = tier == "quick"
     us = []
+    # Layer A: one send_nowait / receive_nowait from an arbitrary stream state (shared with C13)
+    from symx.harness.c13_mem_close import mem_close_step
+
+    for op in ("send_nowait", "receive_nowait"):
+        for (nbuf, nws, nwr) in ((0, 0, 0), (1, 0, 0), (2, 0, 0), (1, 1, 0), (0, 2, 0), (0, 0, 1), (0, 0, 2), (0, 0, 3)):
+            us.append({"name": "A %s buf=%d parked=%d waiting=%d" % (op, nbuf, nws, nwr), "fn": mem_close_step,
+                       "params": {"op": op, "nbuf": nbuf, "nws": nws, "nwr": nwr}, "budget_s": 60})
     B = 240 if quick else 1500
 
     def add(parties, buf, **p):
